@@ -101,6 +101,96 @@ def _int_nf(ctx, f, e, depth=0):
     return {"$" + text(e).replace(" ", ""): 1}
 
 
+def _buffers(f):
+    """(file buffer var, memory buffer var) unpacked from cls.traces[..][..]."""
+    cls_ = f.params[0]
+    for n in f.own_nodes():
+        if isinstance(n, ast.Assign) and isinstance(n.targets[0], ast.Tuple) and \
+                len(n.targets[0].elts) >= 2 and \
+                text(n.value).replace(" ", "").startswith("%s.traces[" % cls_):
+            return text(n.targets[0].elts[0]), text(n.targets[0].elts[1])
+    return None, None
+
+
+def _branch_def(ctx, f, name_node, branch):
+    """Defining expression of a Name under the two-way choice
+    `rank in cls.line_order` (branch True / False)."""
+    facts, is_param = ctx.ty.facts_at(f, name_node.id, name_node)
+    vals = [fa for fa in facts if fa.kind == "expr" and not fa.path
+            and not isinstance(fa.stmt, ast.AugAssign)]
+    if is_param or not vals:
+        return None
+    if len(vals) == 1:
+        return vals[0].value
+    test = "%sin%s.line_order" % (f.params[1], f.params[0])
+    pick = []
+    for fa in vals:
+        gs = {(text(t).replace(" ", ""), pol) for t, pol in atomic_guards(fa.stmt)}
+        if (test, branch) in gs:
+            pick.append(fa.value)
+    return pick[0] if len(pick) == 1 else None
+
+
+def _len_b(ctx, f, e, branch, depth=0):
+    """Length of a list expression as a linear form over opaque integer
+    atoms, evaluated under one branch of the depth choice."""
+    if depth > 8:
+        return None
+    if isinstance(e, ast.Name):
+        d = _branch_def(ctx, f, e, branch)
+        return _len_b(ctx, f, d, branch, depth + 1) if d is not None else None
+    if isinstance(e, ast.List):
+        if any(isinstance(x, ast.Starred) for x in e.elts):
+            return None
+        return {"": len(e.elts)}
+    if isinstance(e, ast.BinOp) and isinstance(e.op, ast.Add):
+        a = _len_b(ctx, f, e.left, branch, depth + 1)
+        b = _len_b(ctx, f, e.right, branch, depth + 1)
+        if a is None or b is None:
+            return None
+        out = dict(a)
+        for k, v in b.items():
+            out[k] = out.get(k, 0) + v
+        return out
+    if isinstance(e, ast.Subscript) and isinstance(e.slice, ast.Slice):
+        sl = e.slice
+        if sl.lower is None and sl.step is None and sl.upper is not None:
+            return _int_b(ctx, f, sl.upper, branch, depth + 1)
+        return None
+    if isinstance(e, ast.Call) and text(e.func) == "list" and e.args:
+        return _len_b(ctx, f, e.args[0], branch, depth + 1)
+    if isinstance(e, (ast.GeneratorExp, ast.ListComp)) and len(e.generators) == 1 \
+            and not e.generators[0].ifs:
+        return _len_b(ctx, f, e.generators[0].iter, branch, depth + 1)
+    return None
+
+
+def _int_b(ctx, f, e, branch, depth=0):
+    if depth > 8:
+        return None
+    if isinstance(e, ast.Constant) and isinstance(e.value, int):
+        return {"": e.value}
+    if isinstance(e, ast.BinOp) and isinstance(e.op, (ast.Add, ast.Sub)):
+        a = _int_b(ctx, f, e.left, branch, depth + 1)
+        b = _int_b(ctx, f, e.right, branch, depth + 1)
+        if a is None or b is None:
+            return None
+        out = dict(a)
+        sg = 1 if isinstance(e.op, ast.Add) else -1
+        for k, v in b.items():
+            out[k] = out.get(k, 0) + sg * v
+        return out
+    if isinstance(e, ast.Name):
+        d = _branch_def(ctx, f, e, branch)
+        if d is not None:
+            return _int_b(ctx, f, d, branch, depth + 1)
+        return {"$" + e.id: 1}
+    t = text(e).replace(" ", "")
+    # the two functions name their parameters alike; normalise cls / rank
+    t = t.replace(f.params[0] + ".", "cls.").replace("[%s]" % f.params[1], "[rank]")
+    return {"$" + t: 1}
+
+
 def _two_way(ctx, f, var):
     """The two definitions of `var` under `rank in cls.line_order` / else:
     returns (text under the test, text under else) or None."""
@@ -121,49 +211,35 @@ def _two_way(ctx, f, var):
 def r1_arity(ctx):
     st = ctx.func(M + "_startTrace")
     au = ctx.func(M + "addUse")
-    # header
-    hd = [n for n in st.own_nodes() if isinstance(n, ast.Assign)
-          and text(n.targets[0]) == "headings"]
-    ctx.require(hd, "C16.R1: headings assignment vanished")
-    hd = hd[-1]         # the last assignment wins
-    hl = _len_nf(ctx, st, hd.value, {})
-    # row
+    sfb, smb = _buffers(st)
+    afb, amb = _buffers(au)
+    ctx.require(sfb and afb, "C16.R1: the (file, memory) buffers are no longer "
+                "unpacked from cls.traces[rank][type_]")
+    heads = [c for c in pat.calls(st, attr="append")
+             if text(c.func.value) in (sfb, smb) and c.args]
+    ctx.require(len(heads) == 2, "C16.R1: _startTrace no longer appends the "
+                "header to both buffers")
     rows = [c for c in pat.calls(au, attr="append")
-            if text(c.func.value) in ("file_trace", "mem_trace")]
+            if text(c.func.value) in (afb, amb) and c.args]
     ctx.require(len(rows) == 2, "C16.R1: addUse no longer appends to both buffers")
-    rl = _len_nf(ctx, au, rows[0].args[0], {})
-    if hl is None or rl is None:
-        raise AnalysisError("C16.R1: list length of header/row not expressible "
-                            "(header %s, row %s)" % (hl, rl))
-    tw_end = _two_way(ctx, st, "end")
-    tw_i = _two_way(ctx, au, "i")
-    if tw_end is None or tw_i is None:
-        ctx.bad("C16.R1", au, rows[0], "header depth (`end`) and row depth "
-                "(`i`) are no longer both chosen by `rank in cls.line_order` "
-                "else the matched rank", text_="trace depth choice")
-        return
-    rel_ok = all(_int_nf(ctx, st, e) == _add1(_int_nf(ctx, au, i))
-                 for e, i in zip(tw_end, tw_i))
-    # substitute end = i + 1 into the header length
-    h2 = {}
-    for k, v in hl.items():
-        if k == "$end":
-            h2["$i"] = h2.get("$i", 0) + v
-            h2[""] = h2.get("", 0) + v
+    clean = lambda d: {k: v for k, v in d.items() if v}
+    for branch in (True, False):
+        hl = _len_b(ctx, st, heads[0].args[0], branch)
+        rl = _len_b(ctx, au, rows[0].args[0], branch)
+        if hl is None or rl is None:
+            raise AnalysisError("C16.R1: list length of header/row not "
+                                "expressible (header %s, row %s)" % (hl, rl))
+        what = "rank in line_order" if branch else "matched rank"
+        if clean(hl) == clean(rl):
+            ctx.ok("C16.R1", au, rows[0], "row length %s equals header length "
+                   "(%s)" % (clean(rl), what), text_="trace row/header arity " + what)
         else:
-            h2[k] = h2.get(k, 0) + v
-    h2 = {k: v for k, v in h2.items() if v}
-    r2 = {k: v for k, v in rl.items() if v}
-    if rel_ok and h2 == r2:
-        ctx.ok("C16.R1", au, rows[0], "row length %s equals header length %s "
-               "(end = i + 1)" % (r2, hl))
-    else:
-        ctx.bad("C16.R1", au, rows[0],
-                "a trace row has length %s but the header has length %s with "
-                "end = i + 1 %s: rows and header columns do not line up (a "
-                "coordinate or position column is dropped or duplicated)"
-                % (r2, hl, "" if rel_ok else "(relation broken)"),
-                text_="trace row/header arity")
+            ctx.bad("C16.R1", au, rows[0],
+                    "a trace row has length %s but the header has length %s "
+                    "(case: %s): rows and header columns do not line up (a "
+                    "coordinate or position column is dropped or duplicated)"
+                    % (clean(rl), clean(hl), what),
+                    text_="trace row/header arity " + what)
     # both buffers receive the same row object
     if text(rows[0].args[0]) == text(rows[1].args[0]):
         ctx.ok("C16.R2", au, rows[1], "(c) file and memory buffers receive the "
@@ -209,8 +285,11 @@ def r2_flush(ctx):
         ctx.bad("C16.R2", st, opens[0] if opens else st.node, "(a) _startTrace "
                 "no longer truncates the trace file", text_="_startTrace open mode")
     # (b) buffer reset
+    wfb, wmb = _buffers(wt)
+    ctx.require(wfb, "C16.R2: _writeTrace no longer unpacks the buffers")
     resets = [n for n in wt.own_nodes() if isinstance(n, ast.Assign) and
-              text(n.targets[0]).replace(" ", "") == "cls.traces[rank][type_]"]
+              text(n.targets[0]).replace(" ", "") ==
+              "%s.traces[%s][%s]" % tuple(wt.params[:3])]
     ok = False
     for n in resets:
         v = n.value
@@ -229,8 +308,19 @@ def r2_flush(ctx):
                 "rows are written again at the next flush",
                 text_="_writeTrace buffer reset")
     # what is written is the whole buffer
-    src = " ".join(text(s) for s in wt.body).replace(" ", "")
-    if "forlineinfile_trace" in src and "f.write(''.join(trace_strs))" in src:
+    okw = False
+    for c in pat.calls(wt, attr="write"):
+        a0 = c.args[0] if c.args else None
+        if isinstance(a0, ast.Call) and isinstance(a0.func, ast.Attribute) and \
+                a0.func.attr == "join" and a0.args:
+            lst = a0.args[0]
+            if isinstance(lst, ast.Name):
+                lst = pat.single_def(ctx, wt, lst)
+            if isinstance(lst, (ast.ListComp, ast.GeneratorExp)) and \
+                    len(lst.generators) == 1 and not lst.generators[0].ifs and \
+                    text(lst.generators[0].iter) == wfb:
+                okw = True
+    if okw:
         ctx.ok("C16.R2", wt, wt.node, "every buffered row is written, in order",
                text_="_writeTrace rows")
     else:
@@ -266,18 +356,29 @@ def r2_flush(ctx):
                 "appending the row", text_="addUse flush test")
     # (d) endCollect flushes before dropping the traces
     g = cfg_of(ec, assert_edges=False)
-    fl = [c for c in pat.calls(ec, name="cls._writeTrace")]
+    ecls = ec.params[0]
+    fl = [c for c in pat.calls(ec, name="%s._writeTrace" % ecls)]
     drop = [n for n in ec.own_nodes() if isinstance(n, ast.Assign)
-            and text(n.targets[0]) == "cls.traces"]
+            and text(n.targets[0]) == "%s.traces" % ecls]
     ok = False
     if fl and drop:
         loops = [a for a in _anc(fl[0]) if isinstance(a, ast.For)]
-        whole = any("cls.traces.items()" in text(l.iter) for l in loops) and \
-            any(".items()" in text(l.iter) and l is not loops[-1] or len(loops) == 2
-                for l in loops)
-        gs = [(text(t).replace(" ", ""), pol) for t, pol in
-              atomic_guards(enclosing_stmt(fl[0]))]
-        ok = whole and gs == [("file_traceisnotNone", True)] and \
+        outer = [l for l in loops if text(l.iter).replace(" ", "") ==
+                 "%s.traces.items()" % ecls]
+        whole = False
+        fbv = None
+        if len(loops) == 2 and outer and isinstance(outer[0].target, ast.Tuple) \
+                and len(outer[0].target.elts) == 2:
+            dvar = text(outer[0].target.elts[1])
+            inner = [l for l in loops if l is not outer[0]][0]
+            if text(inner.iter).replace(" ", "") == "%s.items()" % dvar and \
+                    isinstance(inner.target, ast.Tuple) and \
+                    isinstance(inner.target.elts[1], ast.Tuple):
+                whole = True
+                fbv = text(inner.target.elts[1].elts[0])
+        gs = {pat.catom(ctx, ec, t, pol, False) for t, pol in
+              atomic_guards(enclosing_stmt(fl[0]))}
+        ok = whole and gs == {pat.A("is not", fbv, "None")} and \
             g.can_reach(loops[-1], drop[0]) and not g.can_reach(drop[0], loops[-1])
     if ok:
         ctx.ok("C16.R2", ec, fl[0], "(d) every file buffer is flushed before the "
@@ -416,7 +517,7 @@ def _pos_domain(ctx, f, pos, call, depth=0):
         if augs and len(consts) + len(augs) == len(allf) and \
                 all(isinstance(fa.value, ast.Constant) and fa.value.value == 1
                     for fa in augs):
-            k, why = _counter_stream(ctx, f, pos.id)
+            k, why = _counter_stream(ctx, f, pos.id, text(call.args[1]) if len(call.args) > 1 else None)
             if k == RAW:
                 return "POS", why
             if k:
@@ -436,35 +537,32 @@ def _pos_domain(ctx, f, pos, call, depth=0):
     return None, "unclassified expression `%s`" % text(pos)
 
 
-def _counter_stream(ctx, f, cname):
-    """A counter incremented once per element taken from a stream by
-    _get_next(it): kind of `it`."""
-    kinds = set()
+def _counter_stream(ctx, f, cname, coord=None):
+    """A hand-incremented position counter belongs to the stream whose head
+    coordinate is the one reported with it: the iterator `it` of the
+    priming / advancing assignment `<coord>, _ = _get_next(it)`.  Returns the
+    kind of that stream."""
+    its = set()
     for n in f.own_nodes():
-        if isinstance(n, ast.AugAssign) and text(n.target) == cname:
-            # the stream advanced on the same path: look for _get_next in the
-            # enclosing branch
-            blk = None
-            for a in _anc(n):
-                if isinstance(a, (ast.If, ast.While, ast.For)):
-                    blk = a
-                    if any(isinstance(x, ast.Call) and text(x.func) == "_get_next"
-                           for x in ast.walk(a)):
-                        break
-            if blk is None:
-                continue
-            for x in ast.walk(blk):
-                if isinstance(x, ast.Call) and text(x.func) == "_get_next" and x.args \
-                        and isinstance(x.args[0], ast.Name):
-                    side = cname.split("_")[0]
-                    if x.args[0].id == side or side not in ("a", "b"):
-                        k = _stream_kind(ctx, f, x.args[0])
-                        if k:
-                            kinds.add(k)
+        if isinstance(n, ast.Assign) and isinstance(n.targets[0], ast.Tuple) and \
+                isinstance(n.value, ast.Call) and text(n.value.func) == "_get_next" \
+                and n.value.args and isinstance(n.value.args[0], ast.Name) and \
+                n.targets[0].elts and text(n.targets[0].elts[0]) == coord:
+            its.add(n.value.args[0].id)
+    kinds = set()
+    for it in its:
+        for n in f.own_nodes():
+            if isinstance(n, ast.Call) and text(n.func) == "_get_next" and n.args \
+                    and isinstance(n.args[0], ast.Name) and n.args[0].id == it:
+                k = _stream_kind(ctx, f, n.args[0])
+                if k:
+                    kinds.add(k)
     if len(kinds) == 1:
         k = kinds.pop()
-        return k, "`%s` is incremented once per element taken from a %s stream" % (cname, k)
-    return None, "counter `%s` advanced with streams %s" % (cname, sorted(kinds))
+        return k, "`%s` is incremented once per element taken from the %s stream " \
+                  "that delivers `%s`" % (cname, k, coord)
+    return None, "counter `%s` (reported with coordinate `%s`) advanced with " \
+                 "streams %s" % (cname, coord, sorted(kinds))
 
 
 def r3_positions(ctx):
